@@ -21,7 +21,7 @@ from pyvc import units, ground, source
 from pyvc.values import SymErr
 from pyvc.solve import solve_all
 from contracts import astwriter
-from bounded import astnative, trivianative
+from bounded import astnative, trivianative, clinative
 
 _UNPARSED = r'''
 import sys, json
@@ -122,6 +122,7 @@ def run(tier, seed):
                 v['confirmed'] = True
         if not chk.violations:
             chk.violation('BOUNDED:c09/luafmt changed, dropped or failed on code', {'witness': nbad[:4]}, True)
+    clinative.fold(chk, 'luafmt')
     chk.trust('pyvc VC generator + z3 (cursor helper, end-of-input region); syntactic scan of the handlers; reference grammar / tokenizer (bounded)')
     chk.assume('tokens are abstract values with uninterpreted trivia predicates; token codes are opaque')
     chk.assume('Token.matches is an uninterpreted relation between a token and a pattern; a trivia token does not match the symbol pattern ";" '
